@@ -162,6 +162,28 @@ def check_case(case, ctx=None):
             _num(f"vmap-keys-{op}:score", ei[1], bi[1], case)
             _num(f"vmap-keys-{op}:weight", ei[3], bi[3], case)
         classes.append("vmap:keys")
+    # a constraint written as  masked(override) | default  at ONE address: the override wins iff its flag is
+    # true, whether the flag is a Python bool, an array, or a tracer under jit / vmap
+    if cpaths:
+        p0 = cpaths[0]
+        name, params = run0.dist_info[p0]
+        a_val, b_val = jnp.asarray(gfi.value_for(name, params, 0.31)), jnp.asarray(gfi.value_for(name, params, 0.77))
+
+        def over(flag):
+            chm = gfi.build_chm({p0: a_val}, "or").mask(flag) | gfi.build_chm({p0: b_val}, "or")
+            tr, w = gf.importance(k1, chm, jargs)
+            v, f = gfi.chm_get_traced(tr.get_choices(), p0)
+            return jnp.asarray(v, dtype=jnp.float32), jnp.asarray(f), w
+
+        for fl in (True, False):
+            exp_v = np.float32(a_val if fl else b_val)
+            outs = {"python": over(fl), "array": over(jnp.asarray(fl)), "jit": jax.jit(over)(jnp.asarray(fl)),
+                    "vmap": jax.tree_util.tree_map(lambda x: x[0], jax.vmap(over)(jnp.asarray([fl, not fl])))}
+            for how, (v, f, w) in outs.items():
+                if not bool(np.asarray(f)) or not np.isclose(float(np.asarray(v)), float(exp_v), rtol=1e-6, atol=1e-6):
+                    raise Violation(f"override-constraint:{how}", f"importance with  masked({float(a_val)!r}, flag={fl}) | {float(b_val)!r}  at {p0}: trace holds {np.asarray(v)!r} (valid={np.asarray(f)!r}), expected {float(exp_v)!r} ({how} flag)", case)
+                _num(f"override-constraint:{how}:weight", w, outs["python"][2], case)
+        classes.append("override-constraint")
     if ctx is not None:
         shortcut = any(k in kinds for k in ("mask", "or_else", "switch", "mix")) or case["flag_repr"] == "py"
         ctx.note_case(case, nontrivial=shortcut, classes=classes + ["has:" + k for k in sorted(kinds) if not k.startswith("dist:")])
